@@ -194,7 +194,14 @@ def check(case):
     return res
 
 
+SUFFIXES = (".bin", ".bin", ".log", ".txt", ".hex", ".pcap", ".pcapng", ".gz", ".dat", "", ".tpm", ".LOG", ".json")
+
+
 def _write(tmp, name, data):
+    # the name of an input file says nothing: same stem, a suffix that depends on the content only (so a replay gives the
+    # same name), any of the suffixes people give captures
+    if name.endswith(".bin"):
+        name = name[:-4] + SUFFIXES[(len(data) * 7 + (data[0] if data else 0)) % len(SUFFIXES)]
     p = os.path.join(tmp, name)
     with open(p, "wb") as f:
         f.write(data)
